@@ -346,7 +346,7 @@ func Run(c *hx.Ctx) error {
 		return explore(c)
 	}
 	logger.SetLogger(zap.NewNop())
-	c.Stats.Rule = "exhaustive product: every live (method, pattern) of the real mux in 5 server configurations (+ pre-mux paths, unregistered methods, near-miss paths) x every credential case (11 classes x basic/url/token/bearer transports + malformed variants, ~80 cases) ; real authenticate through a probe route ; UserInfo.AuthorizeDatabase / AuthorizeQuery for every user x database x privilege x statement kind ; grant/revoke sequences (seeded). A case is non-trivial when the credential class is not the administrator; distinct by op line"
+	c.Stats.Rule = "exhaustive product: every live (method, pattern) of the real mux (hook VerifRoutes) in 5 server configurations, plus pre-mux paths, unregistered methods and near-miss paths, x every credential case (none / malformed / unknown user / wrong password / read-only / write-only / other-database / all-privileges / no-privilege / rwuser / administrator over basic, URL, Token and bearer transports, ~80 cases) x target database; /query x 75 statement texts (every statement kind); the real authenticate through a probe route (all cases + seeded fuzz); UserInfo.AuthorizeDatabase / AuthorizeQuery for every user x database x privilege x statement; seeded grant/revoke sequences through Data.SetPrivilege; seeded random privilege worlds; thorough: a real ts-server with auth-enabled (black box). A case is non-trivial when the credential class is not the administrator; distinct by op line"
 	thorough := c.Tier == "thorough"
 	rng := hx.NewRng(c.Seed)
 
